@@ -79,6 +79,18 @@ MUTATIONS = [
     ("dbc-limit-first-piece", "plugins/fcp_dbc/fcp_dbc/dbc_writer.py", "msg_bitlength = encoding[-1].bitstart + encoding[-1].bitlength", "msg_bitlength = encoding[0].bitstart + encoding[-1].bitlength", ["C14"]),
     ("dbc-float-only-f32", "plugins/fcp_dbc/fcp_dbc/dbc_writer.py", "is_float=isinstance(piece.type, (FloatType, DoubleType))", "is_float=isinstance(piece.type, FloatType)", ["C05"]),
     ("layout-dyn-zero-length", E, '            raise ValueError("Error computing type length for type " + str(type))', "            return 0", ["C14"]),
+    ("sched-gt", "plugins/fcp_can_c/templates/can_device_c.jinja", "last_send_t[{{ loop.index0 }}] >= CAN_MSG_PERIOD", "last_send_t[{{ loop.index0 }}] > CAN_MSG_PERIOD", ["C19"]),
+    ("sched-wrong-index", "plugins/fcp_can_c/templates/can_device_c.jinja", "        last_send_t[{{ loop.index0 }}] = time;", "        last_send_t[{{ [loop.index0, 1] | min }}] = time;", ["C19"]),
+    ("sched-no-early-return", "plugins/fcp_can_c/templates/can_device_c.jinja", "    if (last_call_t == time) return;\n", "", ["C19"]),
+    ("sched-last-call-not-updated", "plugins/fcp_can_c/templates/can_device_c.jinja", "    last_call_t = time;\n", "    if (time > last_call_t) last_call_t = time;\n", ["C19"]),
+    ("sched-signed-compare", "plugins/fcp_can_c/templates/can_device_c.jinja", "(time - last_send_t[{{ loop.index0 }}] >= CAN_MSG_PERIOD", "((int32_t)(time - last_send_t[{{ loop.index0 }}]) >= CAN_MSG_PERIOD", ["C19"]),
+    ("sched-stale-frame", "plugins/fcp_can_c/templates/can_device_c.jinja", "        CanFrame frame = can_encode_msg_{{ message.name_snake }}(&dev->{{ message.name_snake }});", "        static CanFrame frame; if (last_send_t[{{ loop.index0 }}] == 0) frame = can_encode_msg_{{ message.name_snake }}(&dev->{{ message.name_snake }});", ["C19"]),
+    ("c-bitmask-wide", "plugins/fcp_can_c/templates/can_signal_parser.c", "#define set_bitfield(data, start, length) ((((uint64_t)data & bitmask(length)) << start))", "#define set_bitfield(data, start, length) ((((uint64_t)data & bitmask(length - (length > 40))) << start))", ["C06"]),
+    ("c-dlc-last-start", "plugins/fcp_can_c/fcp_can_c/can_c_writer.py", "max_dlc = max(max_dlc, ceil((piece.bitstart + piece.bitlength) / 8))", "max_dlc = max(max_dlc, ceil((piece.bitstart + 1) / 8))", ["C06"]),
+    ("c-int16-no-signconv", "plugins/fcp_can_c/templates/can_signal_parser.c", "int16_t can_decode_signal_as_int16_t(const CanFrame *msg, uint32_t start, uint32_t length,\n                                     float scale, float offset, bool is_big_endian) {\n    int64_t bitfield = bitfield_sign_conv(get_bitfield(can_word(msg), start, length), length);", "int16_t can_decode_signal_as_int16_t(const CanFrame *msg, uint32_t start, uint32_t length,\n                                     float scale, float offset, bool is_big_endian) {\n    int64_t bitfield = get_bitfield(can_word(msg), start, length);", ["C06"]),
+    ("c-id-truncated", "plugins/fcp_can_c/templates/can_device_c.jinja", "CanFrame message = {.id = {{message.frame_id}}, .dlc = {{message.dlc}}};\n\tuint64_t word = 0;", "CanFrame message = {.id = {{message.frame_id % 1024}}, .dlc = {{message.dlc}}};\n\tuint64_t word = 0;", ["C06"]),
+    ("c-carrier-too-small", "plugins/fcp_can_c/fcp_can_c/can_c_writer.py", "    if x <= 8:\n        return 8", "    if x <= 9:\n        return 8", ["C06"]),
+    ("c-signconv-off-by-one", "plugins/fcp_can_c/templates/can_signal_parser.c", "    if (length < 64 && get_bit(bitfield, (length - 1))) {", "    if (length < 63 && get_bit(bitfield, (length - 1))) {", ["C06"]),
     ("serde-array-last-elem", S, "    for i in range(type.size):\n        _encode(buffer, fcp, type.underlying_type, data[i])", "    for i in range(type.size):\n        _encode(buffer, fcp, type.underlying_type, data[min(i, 1)])", ["C01", "C02"]),
 ]
 
